@@ -191,12 +191,13 @@ def replay(beh, variant=0):
         try:
             ret = system.solve(**kwargs)
         except ScriptMismatch as e:
-            out.update(outcome='mismatch', detail=str(e))
+            out.update(outcome='mismatch', detail=str(e), consumed=script.pos)
             return out
         except Exception as e:
             out.update(outcome=classify_exc(e), detail=repr(e)[:200])
             ret = None
     out['niter'] = max(count['n'] - 1, 0)   # iiter of System.solve
+    out['consumed'] = script.pos
     if script.pos != len(script.draws) and out['outcome'] != 'mismatch':
         out['detail'] += ' [code consumed {} of {} draws]'.format(script.pos, len(script.draws))
         out['unconsumed'] = True
